@@ -391,6 +391,12 @@ def make_case(g, draw):
         event = COMMON[draw(len(COMMON))]
     else:
         event = (COMMON + LOOSE + LOOSE)[draw(len(COMMON) + 2 * len(LOOSE))]
+    if draw(12) == 0:
+        # a Unicode look-alike spelling (dotted capital I, Kelvin sign, full-width letters, other digits): where the general
+        # pattern admits it, it is an event code like any other - of the family its pattern says
+        t = codegen.lookalikes(event, draw)
+        if codes.PAT_EVENT_CODE.match(t):
+            event = t
     fam = family(event)
     text = plausible_text(event, fam, draw) if draw(2) else grammar_text(draw)
     return {'event': event, 'text': text, 'gender': GENDERS[draw(len(GENDERS))], 'prec': PRECS[draw(len(PRECS))]}
